@@ -996,3 +996,108 @@ func ruleSpanRemovalsPrecedeInsertions(c *Ctx, id string) {
 		}
 	})
 }
+
+// ---------------------------------------------------------------------------------------------
+// C17.R8 / C02.R15  mapping-forgotten-only-with-unmap
+//
+// DB.dataref / data / datasz describe the live mapping. They may be cleared only together with the platform munmap:
+// a path that forgets the mapping without unmapping it (e.g. an error rollback that merely "invalidates") leaks the
+// mapping for the life of the process — and on Linux a mapping keeps the file's flock alive after the descriptor is
+// closed, so a failed read-only Open keeps its shared lock and every read-write Open times out (seed C17d).
+func ruleMappingForgottenOnlyWithUnmap(c *Ctx, id string) {
+	c.rule(id, "mapping-forgotten-only-with-unmap", 2, func() {
+		datarefF := c.dbField("dataref")
+		um := c.fn("bbolt.(*DB).munmap")
+		okUnmap := len(callsIn(um, "bbolt.munmap")) >= 1
+		for _, f := range withAnons(um) {
+			if len(callsIn(f, "bbolt.munmap")) >= 1 {
+				okUnmap = true
+			}
+		}
+		c.check(id+":(*DB).munmap:calls-platform-munmap", um, um.Pos(), "db.munmap calls the platform munmap", okUnmap, "db.munmap no longer unmaps")
+		// every function that clears DB.dataref is the platform munmap itself, or is only reached from db.munmap
+		for _, st := range storesToField(c.P.FnsIn(rootPkg), datarefF) {
+			if !isNilConst(st.Val) {
+				continue
+			}
+			top := topLevel(st.Fn)
+			name := shortFn(top)
+			ok := name == "bbolt.munmap" || name == "bbolt.(*DB).munmap"
+			detail := ""
+			if !ok {
+				callers := c.callerNames(top)
+				ok = len(callers) > 0
+				for _, cn := range callers {
+					base := cn
+					if i := strings.Index(cn, "$"); i >= 0 {
+						base = cn[:i]
+					}
+					if base != "bbolt.(*DB).munmap" && base != "bbolt.munmap" {
+						ok = false
+						detail = name + " clears the mapping description and is called from " + cn + ", which does not unmap"
+					}
+				}
+				if len(callers) == 0 {
+					detail = name + " clears the mapping description outside the unmap path"
+				}
+			}
+			c.check(id+":"+name+":clears-dataref", st.Fn, st.Instr.Pos(), "the mapping description is cleared only by the unmap path (platform munmap, db.munmap and what only db.munmap calls)", ok, detail)
+		}
+	})
+}
+
+// ---------------------------------------------------------------------------------------------
+// C04.R16 / C15.R7 / C07.R14  every-cached-child-bucket-is-spilled
+//
+// Bucket.spill walks the per-transaction cache b.buckets. Every cached child must be either written inline or
+// spilled recursively — unconditionally: whether the child ITSELF has materialised nodes says nothing about its own
+// cached descendants (a bucket opened only on the way down to a nested bucket that was modified). A shortcut that
+// skips "clean" children drops the writes made to their descendants at commit (seed C15d: Compact with nested
+// buckets three levels deep loses the innermost level).
+func ruleEveryCachedChildSpilled(c *Ctx, id string) {
+	c.rule(id, "every-cached-child-bucket-is-spilled", 1, func() {
+		fn := c.fn("bbolt.(*Bucket).spill")
+		bucketsF := c.P.lookupField(rootPkg, "Bucket", "buckets")
+		var next *ssa.Next
+		eachInstr(fn, func(in ssa.Instruction) {
+			if nx, ok := in.(*ssa.Next); ok {
+				if rg, ok := nx.Iter.(*ssa.Range); ok && pathOf(rg.X).Last() == bucketsF {
+					next = nx
+				}
+			}
+		})
+		if next == nil {
+			c.check(id+":(*Bucket).spill:loop", fn, fn.Pos(), "spill iterates over the cached child buckets", false, "no range over b.buckets")
+			return
+		}
+		// the body: the successor taken when the iterator yields an element
+		var body *ssa.BasicBlock
+		for _, r := range *next.Referrers() {
+			if ex, ok := r.(*ssa.Extract); ok && ex.Index == 0 {
+				for _, rr := range *ex.Referrers() {
+					if iff, ok := rr.(*ssa.If); ok {
+						body = iff.Block().Succs[0]
+					}
+				}
+			}
+		}
+		bad := ""
+		if body == nil {
+			bad = "loop body not found"
+		} else {
+			isEvent := func(in ssa.Instruction) bool {
+				return isCallTo(in, "bbolt.(*Bucket).spill") || isCallTo(in, "bbolt.(*Bucket).write")
+			}
+			r := reach(nil, []*ssa.BasicBlock{body}, isEvent, nil)
+			if r[next] {
+				bad = "an iteration can end without the child having been spilled or written inline (a skipped child's cached descendants are never written)"
+			}
+			for _, ret := range returnsOf(fn) {
+				if r[ret] && classifyReturn(ret) != retError {
+					bad = "the function can return from inside the loop without the child having been spilled"
+				}
+			}
+		}
+		c.check(id+":(*Bucket).spill:every-child", fn, next.Pos(), "every cached child bucket is spilled recursively or written inline, on every path of the loop body", bad == "", bad)
+	})
+}
